@@ -446,7 +446,11 @@ def main():
     if replay:
         rp = json.load(open(replay))
         txt = rp.get("case_text", "")
-        if txt:
+        hdr = [l for l in txt.splitlines() if l.startswith("100 ")]
+        if txt and hdr and len(hdr[0].split()) >= 7 and hdr[0].split()[6] == "1":
+            import props as _props
+            _props.spanterm_compare(run, txt)     # a case of the span-terminal engine (raw span records)
+        elif txt:
             run.run_batch("replay", txt, rp.get("step", False), set(cfg["tags"]), set(), tuple(cfg["ppref"]))
     else:
         corpus = []
@@ -518,6 +522,16 @@ def main():
             lines.append("  " + v["what"] + "  [" + str(v["case"]) + "]")
         reported += 1
         exit_code = 1
+    broken = getattr(run, "corr_broken", [])
+    if broken and not run.violations and proof["ok"]:
+        # the correspondence no longer checks although no observation the property speaks about differs: the model is no
+        # longer shown to describe the code, so the theorems no longer speak about it
+        path = os.path.join(VERIF, "replays", "%s-correspondence.json" % pid)
+        json.dump({"property": pid, "broken": broken[0]["correspondence"], "failing_input_found": False, "instances": broken[:5]},
+                  open(path, "w"), indent=1)
+        lines.append("VIOLATION property=%s replay=%s no-failing-input-found" % (pid, path))
+        lines.append("  " + broken[0]["what"] + "  [" + str(broken[0]["case"]) + "]")
+        exit_code = 1
     if not proof["ok"]:
         path = os.path.join(VERIF, "replays", "%s-proof.json" % pid)
         json.dump({"property": pid, "broken": proof["why"], "theorems": cone["theorems"] if cone else [],
@@ -540,7 +554,7 @@ def main():
         print("NOTE generator gap: no compared operation of kind '%s' in this run" % g)
     ev = {
         "property_id": pid, "tier": tier, "seed": seed, "level": "proof", "wall_s": round(wall, 1),
-        "violations": len(run.violations) + (0 if proof["ok"] else 1),
+        "violations": len(run.violations) + (0 if proof["ok"] else 1) + (1 if (getattr(run, "corr_broken", []) and not run.violations and proof["ok"]) else 0),
         "coverage": {
             "obligations": cone["qed"] if cone else 0,
             "discharged": (cone["qed"] if cone else 0) if proof["ok"] else 0,
